@@ -63,7 +63,7 @@ def declare(reg):
         },
         raises={},
         modifies=["Mailbox.msg_keys", "Mailbox.uids", "Mailbox.num_msgs", "Mailbox.num_recent", "Mailbox._msg_key_to_idx", "Mailbox._uid_to_idx",
-                  "Mailbox.sequences", "Mailbox.optional_resync", "*.pending_notifications", "MH.g_keys", "MH.g_seqs", "ClientProxy.g_out", "Mailbox.g_db_exists", "Mailbox.g_db_uid_vv", "Mailbox.g_db_next_uid", "Mailbox.g_db_uids", "Mailbox.g_db_msg_keys", "Mailbox.g_db_subscribed", "Mailbox.g_db_num_msgs"],
+                  "Mailbox.sequences", "Mailbox.optional_resync", "*.pending_notifications", "MH.g_keys", "MH.g_seqs", "ClientProxy.g_out", "Mailbox.g_db_seqs", "Mailbox.g_db_exists", "Mailbox.g_db_uid_vv", "Mailbox.g_db_next_uid", "Mailbox.g_db_uids", "Mailbox.g_db_msg_keys", "Mailbox.g_db_subscribed", "Mailbox.g_db_num_msgs"],
         props=["C20"],
     )
     reg.contract(
